@@ -96,6 +96,7 @@ func c15(c *Ctx) {
 	}
 	progs = append(progs, bpSweepProgs(c, every)...)
 	multiFunctionFiles(c.Out, progs, "bp", 60)
+	bpPrintedFrames(c.Out, progs, 200)
 	emitPipelineCases(c, progs, []pipeCheck{chkDiff, chkBP, chkBind}, 20, func(p *Prog, ob *Observed) bool {
 		return p.Tags["explicit-bp"] || p.Tags["pressure15"]
 	})
